@@ -40,6 +40,15 @@ def trees(chk, n_sent, tag='C13'):
                 continue
             if isinstance(t, A):
                 yield d, case, t, rng
+        # statement shapes of the prepared-statement stream (multi-row VALUES with mixed rows, many placeholders, …)
+        from tools.props import c12
+        extra = list(c12.FIXED) + [g(rng, d) for _ in range(max(20, n_sent // 10)) for g in (c12.gen_insert_rows, c12.gen_many)]
+        for text in extra:
+            try:
+                t = parse_sql(text, d)
+            except Exception:
+                continue
+            yield d, dict(src='c12shape', text=text), t, rng
 
 
 def probe_text(schema, dialect, text, rng, n_rep=3):
